@@ -44,10 +44,10 @@ def PlayerState.get_piece_const_by_square_mask (occupancy : List UInt64) (square
 def PlayerState.get_piece_const_by_square_shift (occupancy : List UInt64) (square_shift : Int) : Option UInt64 := do
   PlayerState.get_piece_const_by_square_mask occupancy (← u64Shl (1 : UInt64) square_shift)
 
-/-- `const PIECE_VALUES: Vec<i32> = [0 , 100 , 320 , 330 , 500 , 900 , 901]` (board/src/board.rs:643) -/
+/-- `const PIECE_VALUES: Vec<i32> = [0 , 100 , 320 , 330 , 500 , 900 , 901]` (board/src/board.rs:635) -/
 def Bitboard.PIECE_VALUES : List Int := [0, 100, 320, 330, 500, 900, 901]
 
-/-- `const fn mvv_lva(piece_active: PieceBits, piece_attacked: PieceBits) -> i32` in `impl Bitboard` (board/src/board.rs:646).
+/-- `const fn mvv_lva(piece_active: PieceBits, piece_attacked: PieceBits) -> i32` in `impl Bitboard` (board/src/board.rs:638).
 * `piece_active` = parameter `piece_active: u64`
 * `piece_attacked` = parameter `piece_attacked: u64`
 `none` = panic (or out of fuel). -/
@@ -123,35 +123,19 @@ def Bitboard.make_move (white : Inkayaku.Rs.PlayerState) (black : Inkayaku.Rs.Pl
           let mv_bits ← Move.set_opponent_lost_king_side_castle mv_bits
           pure mv_bits
         else do
-          if piece_active = KING then do
-            let mv_bits ← (
-              if active.queen_side_castle then do
-                let mv_bits ← Move.set_self_lost_queen_side_castle mv_bits
-                pure mv_bits
-              else do
-                pure mv_bits)
-            let mv_bits ← (
-              if active.king_side_castle then do
-                let mv_bits ← Move.set_self_lost_king_side_castle mv_bits
-                pure mv_bits
-              else do
-                pure mv_bits)
-            pure mv_bits
-          else do
-            if piece_active = ROOK then do
-              let mv_bits ← (
-                if (← (if active.queen_side_castle then (do pure (decide (source_square_shift = (← chk .u32 (A1 - d_castle))))) else pure false)) then do
-                  let mv_bits ← Move.set_self_lost_queen_side_castle mv_bits
-                  pure mv_bits
-                else do
-                  if (← (if active.king_side_castle then (do pure (decide (source_square_shift = (← chk .u32 (H1 - d_castle))))) else pure false)) then do
-                    let mv_bits ← Move.set_self_lost_king_side_castle mv_bits
-                    pure mv_bits
-                  else do
-                    pure mv_bits)
-              pure mv_bits
-            else do
-              pure mv_bits)
+          pure mv_bits)
+    let mv_bits ← (
+      if (← (if active.queen_side_castle then (do (if source_square_shift = (← chk .u32 (A1 - d_castle)) then pure true else (do pure (decide (source_square_shift = (← chk .u32 (E1 - d_castle))))))) else pure false)) then do
+        let mv_bits ← Move.set_self_lost_queen_side_castle mv_bits
+        pure mv_bits
+      else do
+        pure mv_bits)
+    let mv_bits ← (
+      if (← (if active.king_side_castle then (do (if source_square_shift = (← chk .u32 (H1 - d_castle)) then pure true else (do pure (decide (source_square_shift = (← chk .u32 (E1 - d_castle))))))) else pure false)) then do
+        let mv_bits ← Move.set_self_lost_king_side_castle mv_bits
+        pure mv_bits
+      else do
+        pure mv_bits)
     let mv_mvvlva : Int ← Bitboard.mvv_lva piece_active piece_attacked
     let result : List (UInt64 × Int) := result ++ [(mv_bits, mv_mvvlva)]
     pure result
